@@ -575,10 +575,10 @@ func (c AuthCase) runHls(x *l3) *pbt.Violation {
 	}
 	r, err := rawGet(x.HlsAddr, "", target)
 	if err != nil {
-		if isTimeout(err) {
+		if isTimeout(err) || isDialError(err) {
 			return inconclusive("hls-get")
 		}
-		// connection closed without a response: a rejection
+		// connection accepted and closed without a response: a rejection
 		return c.verdict(outRejected, fmt.Sprintf("GET %s: %v", target, err))
 	}
 	if looksLikePlaylist(r.Body) {
@@ -636,6 +636,6 @@ func classifyAuth(c AuthCase) (bool, []string) {
 func TestSimpleAuth(t *testing.T) {
 	pbt.Run(t, pbt.Spec[AuthCase]{
 		ID: "C14", Name: "simple-auth", Gen: genAuth, Run: runAuth, Classify: classifyAuth,
-		Quick: 700, Thorough: 3000,
+		Quick: 1400, Thorough: 3000,
 	})
 }
